@@ -356,6 +356,10 @@ EXPR_WRAPPERS = {
     ('built_in_print.rs::format_for_print_pred', 'out += &the_strings[j];'): 'str_append(&mut out, &the_strings[j]);',
     ('built_in_print.rs::format_for_print_pred', 'out += split[i];'): 'str_append_str(&mut out, split[i]);',
     ('built_in_print.rs::next_solution_print', 'format!("{}", ground_term)'): 'disp_term(ground_term)',
+    # print_list: what is written keeps its text (spec/print.rs)
+    ('built_in_print_list.rs::next_solution_print_list', 'print!(",\\n");'): 'verif_print_sep(Tracked(heap));',
+    ('built_in_print_list.rs::next_solution_print_list', 'println!("{}", s);'): 'verif_println_string(&s, Tracked(heap));',
+    ('built_in_print_list.rs::next_solution_print_list', 'println!("{}", term);'): 'verif_println_term(&term, Tracked(heap));',
     ('built_in_print.rs::next_solution_print', 'format!("{}", term)'): 'disp_term(&term)',
     ('solutions.rs::format_solution', 'out += &format!("{} = {}", name, r_terms[i]);'): 'str_append_binding(&mut out, name, &r_terms[i], false);',
     ('solutions.rs::format_solution', 'out += &format!(", {} = {}", name, r_terms[i]);'): 'str_append_binding(&mut out, name, &r_terms[i], true);',
